@@ -175,6 +175,17 @@ func Touch(name string) {
 	if s == nil || s.cur < 0 || s.aborting {
 		return
 	}
+	live := 0
+	for _, t := range s.threads {
+		if !t.done {
+			live++
+		}
+	}
+	if live <= 1 {
+		// set-up code before the first spawn, or the last thread standing:
+		// nothing to interleave with
+		return
+	}
 	s.park(s.me(), &op{desc: "touch(" + name + ")", alts: func() []int { return []int{0} }, do: func(int) {}})
 }
 
